@@ -100,6 +100,12 @@ def step (s : St) (op impl : String) : St × String × Verdict :=
           let s' := { s with ext := e', chg := c' }
           (s', s!"ok new={join ret} {view s'}", .fail)
       | _, _, _ => (s, "bad-op", .unknown)
+    else if g == "scanfail" && rest.isEmpty then
+      -- the transaction finder fails: the wallet (entries AND lastSeed) must be exactly as before
+      match n.toNat? with
+      | none => (s, "bad-op", .unknown)
+      | some n =>
+        if n = 0 && s.typ != "collection" then (s, "ok new=- " ++ view s, .fail) else (s, "err " ++ view s, .fail)
     else if g == "addkeys" && rest.isEmpty then
       -- collection: the entries are exactly the inserted keys, in order
       let iw := impl.splitOn " "
